@@ -100,8 +100,9 @@ impl Frame {
                 // Parse the array length and try convert it to u64
                 let len = get_integer(reader)?;
                 let len = len.try_into().map_err(|_| Error::BadEncoding)?;
-                // Recursively parse each element of the array
-                let mut items = Vec::with_capacity(len);
+                // Recursively parse each element of the array. Every element takes at least
+                // one byte, so never reserve more than the remaining input can hold.
+                let mut items = Vec::with_capacity(std::cmp::min(len, reader.remaining()));
                 for _ in 0..len {
                     items.push(Frame::parse(reader)?);
                 }
